@@ -137,6 +137,11 @@ fn main() {
             ("wide_custom_number", RVars { major: Some(1), minor: Some(2), patch: Some(3), distance: Some(4294967296), bumped_branch: Some("build/20240315141045".into()), bumped_timestamp: Some(1710511845), custom: json!({"k": 18446744073709551615u64}), ..Default::default() }),
             ("wide_custom_text", RVars { major: Some(4294967296), minor: Some(0), patch: Some(u64::MAX), distance: Some(u64::MAX), bumped_branch: Some("0004294967296".into()), bumped_timestamp: Some(4102444800), last_timestamp: Some(1), custom: json!({"k": "id-99999999999999999999"}), ..Default::default() }),
         ];
+        let mut wide_vars = wide_vars;
+        // custom leaves of every scalar JSON type (fractional, exponent, negative, boolean, numeric text): each is a set value
+        for (name, val) in [("custom_float", json!(3.11)), ("custom_neg_float", json!(-0.5)), ("custom_exp", json!(1e21)), ("custom_one_point_zero", json!(1.0)), ("custom_neg_int", json!(-7)), ("custom_false", json!(false)), ("custom_numeric_text", json!("007.50")), ("custom_small_exp", json!(1e-7))] {
+            wide_vars.push((name, RVars { major: Some(1), minor: Some(2), patch: Some(7), distance: Some(12), bumped_branch: Some("py".into()), bumped_timestamp: Some(1710511845), custom: json!({"k": val}), ..Default::default() }));
+        }
         let base = vec![V(RVar::Major), V(RVar::Minor), V(RVar::Patch)];
         let mut jobs: Vec<RSchema> = vec![];
         for w in &wide {
